@@ -307,7 +307,8 @@ def drift_eval(case, impl):
         # (a hidden file is never reached by the walk: a path argument matching it adds nothing, the diff rules apply to it)
         hidden = any(c.startswith(".") for c in mf["path"].split("/"))
         in_globs = bool(meta.get("globs")) and (glob_files is None or mf["path"] in glob_files) and not hidden
-        listed = {b["attrs"].get("name"): b for b in files.get(mf["path"], [])}
+        # (blocks are identified by name AND start-tag line: a file may hold several blocks of one name, a line several tags)
+        listed = {(b["attrs"].get("name"), b["tag"][0]): b for b in files.get(mf["path"], [])}
         adds, gaps = mf["adds"], mf["gaps"]
         F = faithful_walk(mf["segs"])
         known_possible = F != repaired_walk(mf["segs"])
@@ -316,7 +317,7 @@ def drift_eval(case, impl):
             inside_add = any(s < j < e for j in adds)
             inside_del = any(s <= g and g + 1 <= e for g in gaps)
             far = all(j < s - 1 or j > e + 1 for j in adds) and all(g + 1 < s - 1 or g > e + 1 for g in gaps)
-            got = listed.get(name)
+            got = listed.get((name, s))
             f_content = any(s < l < e for l, _ in F) or any(l in (s, e) and not ed for l, ed in F)
             f_listed = any(s <= l <= e for l, _ in F)
             if (inside_add or inside_del) and not (got and got["content_modified"]):
@@ -328,10 +329,10 @@ def drift_eval(case, impl):
             if in_globs and not got:
                 out.append((f"{mf['path']}:{name}: path arguments given but the block is not listed", None))
         for c in mf["classes"]:
-            b = next(x for x in mf["blocks"] if x["name"] == c["block"])
+            b = next(x for x in mf["blocks"] if x["name"] == c["block"] and ("s" not in c or x["s"] == c["s"]))
             s, e = b["s"], b["e"]
             others_inside = any(s < j < e for j in adds) or any(s <= g and g + 1 <= e for g in gaps)
-            got = listed.get(c["block"])
+            got = listed.get((c["block"], s))
             if c.get("content") is False and not others_inside and not in_globs:
                 # isolated edit of the tag line / end-tag line
                 near = [j for j in adds if s - 1 <= j <= e + 1] + [g for g in gaps if s - 1 <= g + 1 <= e + 1]
@@ -1968,6 +1969,45 @@ def _c11_run(rep, tier, seed, tr):
     rows = K.run_component(rep.prop, "lua", [], seed, n_for(tier, 300, 3000), "thorough")   # the thorough tier's block counts (up to 40)
     K.correspondence(rep, rows, "lua (report)", lambda c, i, m: len(i.get("run", {}).get("diags", [])) >= 1, known=K.load_known(rep.prop))
 CHECKS["C11"]["run"] = _c11_run
+
+
+def c11_search(rep, tier, seed, broken):
+    """the severity table no longer describes the running parser: look for a spelling among `warning|info|hint|error` in any
+    letter case on which the binary contradicts the property itself (diagnostic printed with that level, exit 1 iff error)"""
+    import cli as C, shutil as _sh
+    bad = getattr(broken, "sev_bad", None)
+    if not bad:
+        return False
+    levels = {"error": 1, "warning": 2, "info": 3, "hint": 4}
+    found = False
+    for sp, live, gen in bad:
+        want = levels.get(sp.lower()) if sp.isascii() else None
+        if want is None:
+            continue        # not one of the four names the property speaks about
+        root = C.tmp_root()
+        try:
+            text = f"# <block name=\"s\" keep-sorted severity=\"{sp}\">\nb\na\n# </block>\n"
+            C.materialise(root, [("s.py", text)])
+            res = C.run_bw(root, ["s.py"], env={"BLOCKWATCH_TERMINAL_MODE": "1"})
+        finally:
+            _sh.rmtree(root, ignore_errors=True)
+        rep.evaluations += 1
+        try:
+            diags = json.loads(res["stderr"]).get("s.py", [])
+        except Exception:
+            diags = None
+        ok = diags is not None and [d.get("severity") for d in diags] == [want] and res["exit"] == (1 if want == 1 else 0)
+        if not ok:
+            rep.violation({"property": rep.prop, "component": "severity spellings (search after the severity table broke)",
+                           "what": f"a block with severity=\"{sp}\" and a violated rule must print its diagnostic with level {want} and exit {1 if want == 1 else 0}",
+                           "files": [{"path": "s.py", "text": text}], "args": ["s.py"],
+                           "cli": {"exit": res.get("exit"), "stderr": res["stderr"][:600]}, "broken": broken.what})
+            found = True
+            break
+    return found
+
+
+CHECKS["C11"]["search"] = c11_search
 
 
 _c10_src = CHECKS["C10"]["run"]
